@@ -6,14 +6,17 @@ EXTENDS MC_Backends, Json, SequencesExt
 (* Generator: random mutation histories; after every step the spec's prediction of the whole      *)
 (* state and, for every query, the set of admissible answers.                                     *)
 
-VARIABLES hist, done
+CONSTANT Focus      \* "none" | "aff" | "backoff" (the focused generators below)
+VARIABLES hist, done,
+          cls       \* focused generators: the class of the next step
 
 ObjSeq == LET ids == SetToSortSeq(Live, <)
           IN [i \in 1..Len(ids) |->
                 LET b == objs[ids[i]]
                 IN [oid |-> ids[i], id |-> b.id, addr |-> b.addr, backup |-> b.backup, sticky |-> b.sticky,
                     w |-> b.weight, st |-> b.status, h |-> b.healthy, cs |-> b.cs, cf |-> b.cf,
-                    tries |-> b.tries, wait |-> b.waiting, conns |-> b.conns, reqs |-> b.reqs,
+                    tries |-> b.tries, wait |-> Waiting(b), wsec |-> b.wait, age |-> b.age, left |-> Monus(b.wait, b.age),
+                    conns |-> b.conns, reqs |-> b.reqs,
                     out |-> b.out, rout |-> b.rout, avail |-> AvailableB(b)]]
 
 QuerySeq == SetToSeq(Queries)
@@ -22,14 +25,62 @@ Probes == [i \in 1..Len(QuerySeq) |->
               adm |-> Admissible(QuerySeq[i][1], QuerySeq[i][2])]]
 
 Snapshot == [step |-> last, list |-> list, objs |-> ObjSeq, policy |-> policy, metric |-> metric,
-             probes |-> Probes, eligible |-> Eligible, coarse |-> Coarse(Eligible), fine |-> Fine]
+             probes |-> Probes, eligible |-> Eligible, coarse |-> Coarse(Eligible), fine |-> Fine, basis |-> basis,
+             mt |-> MaxTries, ac |-> AgeCap]      \* what the replayer needs to know of the instance
 
-GenInit == Init /\ hist = <<>> /\ done = FALSE
+GenInit == Init /\ hist = <<>> /\ done = FALSE /\ cls = 0
 \* (simulation evaluates invariants on every candidate successor: the history is printed from the single
 \*  successor of a complete history, so once per behaviour)
-GenNext == \/ Mutate /\ hist' = Append(hist, Snapshot') /\ done' = FALSE
-           \/ steps = MaxSteps /\ ~done /\ done' = TRUE /\ UNCHANGED <<vars, hist>>
-GenSpec == GenInit /\ [][GenNext]_<<vars, hist, done>>
+GenNext == \/ Mutate /\ hist' = Append(hist, Snapshot') /\ done' = FALSE /\ UNCHANGED cls
+           \/ steps = MaxSteps /\ ~done /\ done' = TRUE /\ UNCHANGED <<vars, hist, cls>>
+GenSpec == GenInit /\ [][GenNext]_<<vars, hist, done, cls>>
 
 EmitHist == done => PrintT(<<"REPLAY", ToJson(hist)>>)
+
+---------------------------------------------------------------------------
+(* Focused generators.  TLC's simulator draws uniformly among ALL successor states, so an action with   *)
+(* many instances (AddBackend: slots x configurations) crowds out the ones with few (SetPolicy, Elapse).  *)
+(* Here the class of the next step is drawn first (`cls`, uniformly), then an instance of that class:    *)
+(*   "aff"     - the policy object is (re)installed on a populated cluster whose eligible set keeps       *)
+(*               moving (health, back-off, time), affinity policies only: the same (key, eligible set,   *)
+(*               list) is reached by many different histories, which is what the replayer's memo needs;   *)
+(*   "backoff" - failure / time / success sequences on few backends: a failure long after the last        *)
+(*               success, a success after a failure followed at once by selections, failure streaks with   *)
+(*               growing windows up to the cap of the real budget.                                         *)
+
+NClasses == 8
+AnyAdd == \E s \in Slots, c \in Configs : AddBackend(s, c)
+
+FocusAff(c) ==
+  CASE c = 1 -> AnyAdd
+    [] c = 2 -> \E a \in Addrs : RemoveBackend(a)
+    [] c \in {3, 4} -> \E p \in Policies \cap {"hrw", "maglev"} : SetPolicy(p, "conns")
+    [] c = 5 -> IF Live # {} THEN \E o \in Live : HealthDown(o, 1) ELSE AnyAdd
+    [] c = 6 -> IF Live # {} THEN \E o \in Live : HealthUp(o, 1) ELSE AnyAdd
+    [] c = 7 -> IF Live # {} THEN \E o \in Live : \E w \in 1..MaxW(MaxTries) : RetryFail(o, w) ELSE AnyAdd
+    [] OTHER -> \E d \in Elapses : Elapse(d)
+
+\* just as long as the longest open window lasts (failure streaks need a failure right after the window)
+MaxLeft == LET S == {Monus(objs[o].wait, objs[o].age) : o \in Live}
+           IN IF S = {} THEN 0 ELSE CHOOSE m \in S : \A x \in S : x <= m
+
+FocusBackoff(c) ==
+  CASE c = 1 -> AnyAdd
+    [] c \in {2, 3, 4} -> IF Live # {} THEN \E o \in Live : \E w \in 1..MaxW(MaxTries) : RetryFail(o, w) ELSE AnyAdd
+    [] c = 5 -> Elapse(IF MaxLeft > 0 THEN MaxLeft ELSE 1)
+    [] c = 6 -> \E d \in Elapses : Elapse(d)
+    [] c = 7 -> IF Live # {} THEN \E o \in Live : RetrySucceed(o) ELSE AnyAdd
+    [] OTHER -> \/ \E o \in Live, th \in Thresholds : HealthDown(o, th)
+                \/ \E o \in Live, th \in Thresholds : HealthUp(o, th)
+                \/ \E o \in Live : SetClosing(o)
+                \/ \E p \in Policies : SetPolicy(p, "conns")
+
+\* the first steps populate the cluster
+FocusStep == IF steps < (IF Focus = "aff" THEN 3 ELSE 2) THEN AnyAdd
+             ELSE IF Focus = "aff" THEN FocusAff(cls) ELSE FocusBackoff(cls)
+
+FocusInit == Init /\ hist = <<>> /\ done = FALSE /\ cls \in 1..NClasses
+FocusNext == \/ FocusStep /\ hist' = Append(hist, Snapshot') /\ done' = FALSE /\ cls' \in 1..NClasses
+             \/ steps = MaxSteps /\ ~done /\ done' = TRUE /\ UNCHANGED <<vars, hist, cls>>
+FocusSpec == FocusInit /\ [][FocusNext]_<<vars, hist, done, cls>>
 =============================================================================
